@@ -128,7 +128,7 @@ pub fn run(report: &Report) -> i32 {
         "c16",
         "proptest-generated datagram workloads (sizes 0..2000 and max_size()+-2, drop true/false, lazy receivers, tiny and large send/receive buffers) mixed with streams over faulty links with MTU changes; oracles: payload identity and at-most-once at recv(), oldest-first receive-buffer model, send() result model (Disabled/UnsupportedByPeer/TooLarge/Blocked/Ok), send_buffer_space, max_size bounds, wire order, DatagramsUnblocked; non-trivial = something was received AND (a max_size datagram was sent OR the receive buffer overflowed OR a datagram-carrying packet was duplicated on the link)",
         || arb_xfer(gen()),
-        report.cases(8000, 400_000),
+        report.cases(40_000, 1_500_000),
         case,
     );
     report.finish("generated-input search (proptest) against datagram buffer models")
